@@ -39,6 +39,7 @@ func lookupIntrinsic(fn *ssa.Function, name string) intrinsicFunc {
 
 type mapModel struct {
 	keys, vals []value
+	perm       []int // iteration order chosen for the current key set (all-orders mode)
 }
 type ctxObj struct {
 	done     *Chan
@@ -320,12 +321,38 @@ func init() {
 		m := e.smap(a[0])
 		ks := append([]value{}, m.keys...)
 		vs := append([]value{}, m.vals...)
-		allOrders := e.params["syncmap_all_orders"] != 0
+		// all iteration orders only for tables of file systems (mount tables); record stores keep insertion order
+		allOrders := e.params["syncmap_all_orders"] != 0 && len(vs) <= 4
+		for _, v := range vs {
+			iv, ok := v.(Iface)
+			if !ok || iv.t == nil || !strings.HasSuffix(iv.t.String(), ".FS") {
+				allOrders = false
+			}
+		}
+		if allOrders && len(ks) > 1 && len(m.perm) != len(ks) {
+			// one iteration order per run and key set (a decision); every Range then follows it
+			rest := make([]int, len(ks))
+			for i := range rest {
+				rest[i] = i
+			}
+			m.perm = nil
+			for len(rest) > 1 {
+				e.schedDec++ // natively the order is not controllable: replays are retried
+				c := e.decide(make([]*Sym, len(rest)))
+				m.perm = append(m.perm, rest[c])
+				rest = append(rest[:c:c], rest[c+1:]...)
+			}
+			m.perm = append(m.perm, rest[0])
+		}
+		if allOrders && len(m.perm) == len(ks) {
+			pk, pv := make([]value, len(ks)), make([]value, len(ks))
+			for i, j := range m.perm {
+				pk[i], pv[i] = ks[j], vs[j]
+			}
+			ks, vs = pk, pv
+		}
 		for len(ks) > 0 {
 			i := 0
-			if allOrders && len(ks) > 1 {
-				i = e.decide(make([]*Sym, len(ks)))
-			}
 			k, v := ks[i], vs[i]
 			ks = append(ks[:i:i], ks[i+1:]...)
 			vs = append(vs[:i:i], vs[i+1:]...)
